@@ -472,7 +472,16 @@ impl NHistory {
                 }
             }
             117 | 118 => {
-                self.emit(op);
+                let obs = self.emit(op);
+                // C16: a token that reads successfully re-serialises to bytes that read to the same value
+                if let Some([Tree::N(0), Tree::L(pair)]) = obs.as_l() {
+                    if code == 117 && pair.len() == 2 {
+                        self.feat("token_read_ok");
+                        if pair[1] != l(vec![n(0u8), pair[0].clone()]) {
+                            self.violate("C16", "a connect token that was read successfully does not survive write followed by read".to_string());
+                        }
+                    }
+                }
                 if self.res.panicked {
                     self.violate("C07", "parsing bytes as a connect token (or building a client from it) panicked".to_string());
                 }
@@ -628,6 +637,55 @@ impl NHistory {
                 }
                 self.to_client(target, data, if unmodified && same_session { Some(i) } else { None }, inauthentic);
             }
+            155 => {
+                // (155 k kc seq): the owner of client k's token answers with the challenge the server issued to client kc
+                let (k, kc, seq) = (u(1).unwrap_or(0), u(2).unwrap_or(0), u(3).unwrap_or(77));
+                let (from, from_c) = match (self.client_addr.get(&k), self.client_addr.get(&kc)) {
+                    (Some(a), Some(c)) => (*a, *c),
+                    _ => {
+                        self.comment("unknown client address: skipped");
+                        return true;
+                    }
+                };
+                let (tk, tc) = match (self.client_token.get(&k).and_then(|t| self.tokens.get(t)).cloned(), self.client_token.get(&kc).and_then(|t| self.tokens.get(t)).cloned()) {
+                    (Some(a), Some(c)) => (a, c),
+                    _ => {
+                        self.comment("unknown token: skipped");
+                        return true;
+                    }
+                };
+                // newest challenge addressed to kc
+                let mut chal: Option<(u64, [u8; 300])> = None;
+                for d in self.out_s.iter().rev() {
+                    if d.dst != from_c {
+                        continue;
+                    }
+                    let mut copy = d.bytes.clone();
+                    if let Ok((_, Packet::Challenge { token_sequence, token_data })) = Packet::decode(&mut copy, tc.protocol, Some(&tc.s2c), None) {
+                        chal = Some((token_sequence, token_data));
+                        break;
+                    }
+                }
+                let (ts, td) = match chal {
+                    Some(x) => x,
+                    None => {
+                        self.comment("no challenge to reuse: skipped");
+                        return true;
+                    }
+                };
+                let mut buf = vec![0u8; 1400];
+                let pkt = Packet::Response { token_sequence: ts, token_data: td };
+                let len = match pkt.encode(&mut buf, tk.protocol, Some((seq, &tk.c2s))) {
+                    Ok(l) => l,
+                    Err(_) => return true,
+                };
+                buf.truncate(len);
+                self.feat("crossed_challenge_response");
+                // authentic for the session at `from` only if it is that session's own challenge
+                let own = k == kc;
+                self.to_server(from, buf, None, false);
+                let _ = own;
+            }
             170 => {
                 // (170 k rounds): good rounds for client k - everything emitted is delivered, ticks of 250 ms
                 let k = u(1).unwrap_or(0);
@@ -666,7 +724,7 @@ impl NHistory {
             };
             let clients = s.verif_clients();
             let connecting = c.is_connecting();
-            let free = clients.len() < s.max_clients() && clients.len() < s.verif_num_slots();
+            let free = clients.len() < s.max_clients();
             let id_free = !clients.iter().any(|x| x.client_id == tinfo.id);
             let addr_free = !clients.iter().any(|x| x.addr == addr);
             let pending_ok = s.verif_pending().iter().all(|p| p.addr != addr || (p.client_id == tinfo.id && p.user_data[..] == tinfo.user[..]));
